@@ -3,9 +3,11 @@ package main
 import (
 	"reflect"
 	"runtime"
+	"runtime/debug"
 	"sort"
 	"sync"
 	"sync/atomic"
+	"syscall"
 	"unsafe"
 
 	"github.com/tencent/goom/internal/bytecode/stub"
@@ -62,6 +64,45 @@ func c20(args []string) int {
 	defer out.Close()
 	min, max, _ := stub.VerifHolderBounds()
 	reserve := int(max - min)
+	if c.extra == "fallback" {
+		// Acquire itself with the primary path refused by the kernel: RLIMIT_AS lowered to one page for the duration of the
+		// call (every NEW mapping fails with ENOMEM, as on a host that denies writable+executable mappings)
+		const rlimitAS = 9
+		for i, n := range []int{48, 13, 200, 12, 1000} {
+			rec := map[string]interface{}{"kind": "fallback", "i": i, "n": n}
+			var old syscall.Rlimit
+			if err := syscall.Getrlimit(rlimitAS, &old); err != nil {
+				rec["skipped"] = "getrlimit: " + err.Error()
+				out.Put(rec)
+				continue
+			}
+			runtime.GC()
+			gcp := debug.SetGCPercent(-1)
+			low := old
+			low.Cur = 4096
+			var s *stub.Space
+			var err error
+			if e := syscall.Setrlimit(rlimitAS, &low); e != nil {
+				rec["skipped"] = "setrlimit: " + e.Error()
+			} else {
+				s, err = stub.Acquire(n)
+				syscall.Setrlimit(rlimitAS, &old)
+			}
+			debug.SetGCPercent(gcp)
+			if rec["skipped"] == nil {
+				rec["err"] = err != nil
+				if err == nil {
+					rec["typ"] = stub.VerifSpaceType(s)
+					rec["in_reserve"] = s.Addr >= min && s.Addr+uintptr(n) <= max
+					out.Put(map[string]interface{}{"kind": "fallback-about", "i": i, "n": n, "typ": rec["typ"], "in_reserve": rec["in_reserve"]})
+					out.Flush()
+					rec["exec"] = callThrough(s, n)
+				}
+			}
+			out.Put(rec)
+		}
+		return 0
+	}
 
 	nSeq, nRounds := 400, 300
 	if c.tier == "thorough" {
